@@ -262,3 +262,62 @@ Fixpoint run_full (st : gstate) (s : schedule) : list (observation * gstate) :=
 
 Definition run_from (st : gstate) (s : schedule) : list observation := map fst (run_full st s).
 Definition run (p : program) (s : schedule) : list observation := run_from (init p) s.
+
+(* --------------------------------------------- into_yielded / into_complete *)
+(* Both wrap the generator in StreamExt::filter_map with an immediately ready
+   future (futures-util stream/stream/filter_map.rs): poll the inner stream;
+   an item mapped to None is dropped and the inner stream is polled again at once. *)
+
+(* async_generator.rs:150-152  self.filter_map(|state| ready(state.into_yielded()))
+   Complete(()) is filtered out, the next inner poll returns None. *)
+Definition poll_into_yielded (st : gstate) : gstate * poll_result :=
+  let '(st1, r) := poll_next st in
+  match r with
+  | RComplete _ => poll_next st1
+  | _ => (st1, r)
+  end.
+
+(* async_generator.rs:134-141  filter_map(into_complete), then s.next().await.unwrap():
+   yielded items are dropped and the generator is polled again within the same poll.
+   `None` from the inner stream would make unwrap panic; fuel bounds the loop
+   (theorem: fuel > number of emissions is never exhausted and None is never reached). *)
+Inductive cpoll := CPending | CReady (r : N) | CNone | COutOfFuel.
+
+Fixpoint poll_into_complete (fuel : nat) (st : gstate) : gstate * cpoll :=
+  let '(st1, r) := poll_next st in
+  match r with
+  | RPendingP => (st1, CPending)
+  | RComplete v => (st1, CReady v)
+  | RStreamEnd => (st1, CNone)
+  | RYielded _ => match fuel with O => (st1, COutOfFuel) | S f => poll_into_complete f st1 end
+  end.
+
+Inductive mode := MRaw | MYielded | MComplete.
+
+Definition cpoll_result (c : cpoll) : poll_result :=
+  match c with CPending => RPendingP | CReady v => RComplete v | CNone => RStreamEnd | COutOfFuel => RStreamEnd end.
+
+Definition poll_mode (md : mode) (fuel : nat) (st : gstate) : gstate * poll_result :=
+  match md with
+  | MRaw => poll_next st
+  | MYielded => poll_into_yielded st
+  | MComplete => let '(st1, c) := poll_into_complete fuel st in (st1, cpoll_result c)
+  end.
+
+(* the wrapper's own is_terminated: FilterMap = inner is_terminated (no pending future);
+   the into_complete future has none (recorded as false) *)
+Definition term_mode (md : mode) (st : gstate) : bool :=
+  match md with MComplete => false | _ => is_terminated st end.
+
+Fixpoint run_mode_full (md : mode) (fuel : nat) (st : gstate) (s : schedule) : list (observation * gstate) :=
+  match s with
+  | [] => []
+  | Complete k :: s' => run_mode_full md fuel (with_m (complete_m k) st) s'
+  | Poll :: s' =>
+      let '(st1, r) := poll_mode md fuel (with_m (fun m => set_log [] (set_woken false m)) st) in
+      (Ob (m_woken (g_m st)) r (m_woken (g_m st1)) (m_log (g_m st1)) (m_wait_reg (g_m st1)) (term_mode md st1), st1)
+      :: run_mode_full md fuel (with_m (set_woken false) st1) s'
+  end.
+
+Definition run_mode (md : mode) (p : program) (s : schedule) : list observation :=
+  map fst (run_mode_full md (S (length (emits (p_ops p)))) (init p) s).
